@@ -289,3 +289,6 @@ func TempFile(content string) string {
 
 // LockModel has no native twin (real mutexes, real scheduler).
 func LockModel(on bool) {}
+
+// Origin has no native twin.
+func Origin(v any) string { return "" }
